@@ -57,13 +57,11 @@ func runC12(r *mon.Run, replay string) {
 
 	if replay != "" {
 		var cc clusterCase
-		if err := loadReplay(replay, &cc); err != nil {
+		if err := loadReplay(r, replay, &cc); err != nil {
 			r.Inconclusive("cannot read replay: " + err.Error())
 			return
 		}
-		for i := 0; i < 5; i++ {
-			runCluster(r, cc.Stream, cc.Special)
-		}
+		parallel(3, 3, func(int) { runCluster(r, cc.Stream, cc.Special) })
 		return
 	}
 
